@@ -566,4 +566,69 @@ example (r32 : Nat → Nat) :
 example (r32 : Nat → Nat) :
     reflectTo r32 (.array 2 (.int 0)) (wrap true (.array 2 (.int 0)) (.arr [.int 1, .int 2])) = some (.arr [.int 1, .int 2]) := rfl
 
+/-! ### audit additions (stranger's review, notes/audit-C18.md): instances of the hypotheses that had none, and two readings of the
+property text that need no exclusion -/
+
+/-- "integers of all widths, floats, strings, booleans": a scalar ALWAYS round-trips — no exclusion (`RtOK` is `true` on scalars) -/
+theorem C18_scalar_roundtrip (r32 : Nat → Nat) (hr : R32Exact r32) (ty : GoTy) (v : GoVal)
+    (hs : scalarTy ty = true) (h : hasType ty v = true) : reflectTo r32 ty (wrap true ty v) = some v := by
+  refine C18_roundtrip r32 hr ty v ?_ h ?_
+  · cases ty <;> simp_all [scalarTy, Modelled]
+  · cases ty <;> simp [scalarTy] at hs <;> cases v <;> simp [RtOK]
+example : scalarTy (.uint 64) = true ∧ hasType (.uint 64) (.int (2 ^ 64 - 1)) = true ∧
+    scalarTy (.float 32) = true ∧ hasType (.float 32) (.flt 0x7FF0000000000000) = true := by decide
+
+/-- "pointers used as optionals": the nil pointer of ANY pointer type is undef, comes back as the nil pointer, and the derived
+    Optional type accepts it -/
+theorem C18_nil_pointer (r32 : Nat → Nat) (e : GoTy) :
+    wrap true (.ptr e) .nil = .undef ∧ reflectTo r32 (.ptr e) (wrap true (.ptr e) .nil) = some .nil ∧
+    inst (typeOf (.ptr e)) (wrap true (.ptr e) .nil) = true := by
+  simp [wrap, reflectTo, typeOf, inst]
+
+-- `C18_int_width` / `C18_uint_width`: the boundary values of a width (the wrapped form of the largest uint64 is -1)
+example : okWidth 8 = true ∧ hasType (.int 8) (.int (-128)) = true ∧ truncS (bitsOf 8) (-128) = -128 := by decide
+example : okWidth 64 = true ∧ hasType (.uint 64) (.int (2 ^ 64 - 1)) = true ∧ u2i (2 ^ 64 - 1) = -1 ∧
+    truncU (bitsOf 64) (u2i (2 ^ 64 - 1)) = 2 ^ 64 - 1 := by decide
+
+-- `C18_map_any_order`: the entries handed to SetMapIndex in another order than the canonical one
+example : ([(.int 2, .str "b"), (.int 1, .str "a")] : List (GoVal × GoVal)).Perm [(.int 1, .str "a"), (.int 2, .str "b")] ∧
+    sortedKeys [(.int 1, .str "a"), (.int 2, .str "b")] = true := ⟨List.Perm.swap _ _ _, by decide⟩
+example : mapOf [(.int 2, .str "b"), (.int 1, .str "a")] = [(.int 1, .str "a"), (.int 2, .str "b")] :=
+  C18_map_any_order _ _ (List.Perm.swap _ _ _) (by decide)
+
+-- `C18_defaults_restored` / `C18_default_exact`: both attributes at their (exact) default are cut and put back; `value=>0.0` is NOT exact
+example : ([{ name := "p", ty := .uint 16, dflt := some (.int 8080) }, { name := "d", ty := .ptr .string }] : List Field).all
+    (·.exactDflt) = true ∧ ({ name := "z", ty := .float 64, dflt := some (.flt 0) } : Field).exactDflt = false := by decide
+example : trimDefaults [{ name := "p", ty := .uint 16, dflt := some (.int 8080) }, { name := "d", ty := .ptr .string }]
+    [.int 8080, .undef] = [] := by rfl
+example : restore [{ name := "p", ty := .uint 16, dflt := some (.int 8080) }, { name := "d", ty := .ptr .string }]
+    (trimDefaults [{ name := "p", ty := .uint 16, dflt := some (.int 8080) }, { name := "d", ty := .ptr .string }]
+      [.int 8080, .undef]) = [.int 8080, .undef] :=
+  C18_defaults_restored _ _ rfl (by decide)
+
+-- `C18_attr_type_derived`: an untagged `[]uint8` FIELD holding [255] (as a field it is an Array, and `TaOK false` holds)
+example : ({} : FTag).typ = none ∧ ({} : FTag).kind ≠ .givenOrDerived ∧ ({} : FTag).dflt ≠ some .undef ∧
+    Modelled (.slice (.uint 8)) = true ∧ fieldHasType (.slice (.uint 8)) (.slice [.int 255]) = true ∧
+    TaOK false (.slice (.uint 8)) (.slice [.int 255]) = true := by decide
+-- `C18_iface_field`: an interface{} field holding a []interface{} / a typed nil pointer; a struct inside is refused
+example : ifaceField (.iface (.slice .iface) (.slice [.iface (.int 8) (.int 1), .nil])) = true ∧
+    ifaceField (.iface (.ptr (.int 8)) .nil) = true ∧ ifaceField (.iface (.scons "A" {} .bool .snil) (.st [.bool true])) = false := by
+  decide
+-- `C18_parent_accepts` / `C18_promotion` on `sampleNested` (its embedded first field `Base` is the parent)
+example : inst (typeOf (.scons "PID" { dflt := some (.int 8080) } (.uint 16) (.scons "PL" {} (.slice .string) .snil)))
+    (wrap true sampleNested sampleNestedVal) = true :=
+  C18_parent_accepts sampleNested _ sampleNestedVal (by decide) (by decide)
+example : (flatVals sampleNested sampleNestedVal).length = (attrsOf sampleNested).length :=
+  (C18_promotion sampleNested sampleNestedVal (by decide) (by decide)).1
+
+/-- OBSERVATION (restatement): `C18_struct_value` has no typing hypothesis and needs none — `wrap` of a struct type is `.obj S false v` and
+    `reflectTo` hands `v` back, so the theorem holds of an ILL-TYPED "struct value" just as well.  It states the model's reading of
+    `FromReflectedValue` (the object HOLDS the reflect.Value), not a fact about struct contents; what is said about contents is
+    `C18_struct_nested`. -/
+example (r32 : Nat → Nat) :
+    hasType (.scons "A" {} (.int 8) .snil) (.st [.str "not an int8", .bool true]) = false ∧
+    reflectTo r32 (.scons "A" {} (.int 8) .snil) (wrap true (.scons "A" {} (.int 8) .snil) (.st [.str "not an int8", .bool true])) =
+      some (.st [.str "not an int8", .bool true]) :=
+  ⟨by decide, (C18_struct_value r32 _ true _ rfl).1⟩
+
 end Pcore.Reflect
